@@ -25,6 +25,9 @@
                                        held, and every run can be extended to such a state;
     * `api_no_deadlock`, `api_all_complete`  the same, instantiated: threads running arbitrary
                                        sequences of API operations from the initial state;
+    * `api_lazy`, `lazy_store_never_blocks`  while a lazy's initialiser runs its data mutex
+                                       is free (why the TAGS -> FMT edge of the raw lock graph,
+                                       the store inside the context initialiser, is benign);
     * `fmt_mutex`, `format_linearizable`, `format_alone`  the context is accessed only under
                                        FMT => critical sections do not interleave => a
                                        formatting call returns `fmt ctx e` for the context at
@@ -46,9 +49,13 @@
       formats through the global context, or that is entered while the caller keeps a
       registry guard obtained from the public `get()`, is outside the table: such programs
       are not ranked and `findDeadlock` finds the deadlock);
-    * the momentary store into a lazy's own mutex inside its initialiser (not an
-      instruction, see the header of Model/Conc.lean: the data mutex is private and is
-      locked outside the initialiser only after the `Once` completed);
+    * the momentary store into a lazy's own mutex inside its initialiser is not an
+      instruction of the programs (header of Model/Conc.lean).  What *is* proved about it:
+      `lazy_store_never_blocks` - in every reachable state in which some thread runs the
+      initialiser of a lazy, the lazy's data mutex is free, so that store finds it free
+      (this uses only that `get()` locks the data mutex after `call_once`, `api_lazy`);
+      and no other thread's next instruction requests it; the store itself, a lock-unlock
+      pair on a free mutex that nobody requests meanwhile, is left out;
     * memory-model effects, the semantics of `std::sync::{Once, Mutex}` themselves (the model
       *is* the assumed semantics), the real scheduler and its fairness (the theorems say
       that progress is always possible and that no run is infinite, hence every scheduler
@@ -240,6 +247,53 @@ example : ∀ ops ∈ [[withFMT 1, lookupKV], [withFMT 0], [lookupFN, withFMT 2]
   · rcases hp with rfl | rfl
     · exact Or.inl ⟨"function_lookup", by simp [apiOps]⟩
     · exact Or.inr ⟨2, rfl⟩
+
+/-! ### the store inside an initialiser -/
+
+/-- every API lock program respects the lazy discipline of each of the five lazies: the data
+mutex is taken only after the lazy's `call_once` (a complete table; `withFMT k` for every `k`
+by `withFMT_lazy`) -/
+theorem api_lazy : allLazy = true := by decide
+
+/-- everything a thread holds - a lock, or a once it is running - is given up by an
+instruction pending in its program: a running once has its `done` pending -/
+theorem held_will_be_released (s : State) (g : Good s) (i : Nat) (t : Thread)
+    (ht : s.threads[i]? = some t) (r : Nat) (hr : r ∈ t.held) :
+    Instr.rel r ∈ t.pc ∨ Instr.done r ∈ t.pc :=
+  held_pending t.pc t.held [] r (g.sym_ok i t ht) hr (by simp)
+
+/-- While some thread runs the initialiser of a lazy, nobody holds the lazy's data mutex
+and no thread's next instruction requests it: the store `*self.data.lock().unwrap() = Some(..)` inside the initialiser finds the mutex
+free, whatever the other threads do.  (For `GLOBAL_FORMAT_CONTEXT` that store happens with
+TAGS, KNOWN_VALUES, FUNCTIONS and PARAMETERS held, against the rank order; this is why it
+cannot hurt.) -/
+theorem lazy_store_never_blocks (opss : List (List (List Instr)))
+    (h : ∀ ops ∈ opss, ∀ p ∈ ops, IsApiOp p) (sched : List Nat) (s : State)
+    (hrun : run (init (opss.map List.flatten)) sched = some s)
+    (o m : Nat) (hl : (o, m) ∈ lazies) (u : Nat) (hu : s.owner o = some u) :
+    s.owner m = none ∧
+    ∀ (i : Nat) (t : Thread) (rest : List Instr), s.threads[i]? = some t →
+      t.pc ≠ Instr.acq m :: rest := by
+  have g : Good s :=
+    good_run_of (good_init opss fun ops ho p hp => api_op_ranked p (h ops ho p hp)) hrun
+  have li : LazyInv o m s := by
+    refine lazyInv_run (lazyInv_init ?_) hrun
+    intro p hp
+    obtain ⟨ops, hops, rfl⟩ := List.mem_map.1 hp
+    apply lazy_flatten
+    intro q hq
+    have := apiOp_lazy api_lazy (h ops hops q hq)
+    unfold lazyDisciplined at this
+    rw [List.all_eq_true] at this
+    exact this (o, m) hl
+  exact ⟨store_free g li hu, fun i t rest ht => store_unrequested li hu i t ht rest⟩
+
+/-- thread 0 is inside the context initialiser, holding TAGS, KNOWN_VALUES, FUNCTIONS and
+PARAMETERS (16 steps), thread 1 waits for it: FMT is free -/
+example : ∃ s, run (init [withFMT 1, withFMT 1]) (List.replicate 16 0) = some s ∧
+    s.owner oFMT = some 0 ∧ holds s 0 PARAM = true ∧ holds s 0 TAGS = true ∧
+    step s 1 = none ∧ (oFMT, FMT) ∈ lazies :=
+  ⟨_, rfl, by decide, by decide, by decide, rfl, by decide⟩
 
 /-! ### formatting: mutual exclusion and "the same text as when run alone" -/
 
